@@ -41,6 +41,8 @@ def main(argv: List[str]) -> int:
                               'seed': seed, 'gen': 'RandDocP', 'variant': with_props}
     res = docs.run_items(list(items.values()), rep, 'C15')
     doccheck.judge('C15', rep, res, items, lambda it: True)
+    from . import census
+    rep.census.require('C15', ['table.props', 'col.props', 'table.props+note', 'table.note', 'col.note', 'idx', 'doc.tableless'], rep, 'parse-side documents')
     # render side: properties are shown iff the database's flag is set AT RENDER TIME, whatever it was before, and they
     # survive the round trip (TraceDbml clauses `content` and `props`)
     from . import render, c02
